@@ -32,6 +32,8 @@ mod c_e2e;
 mod c_year;
 #[cfg(feature = "c_fixed")]
 mod c_fixed;
+#[cfg(feature = "c_evtxr")]
+mod c_evtxr;
 #[cfg(feature = "c_lskel")]
 mod c_lskel;
 #[cfg(feature = "c_capx")]
@@ -167,6 +169,8 @@ fn main() {
         "fixed" => if replay { replay_loop(&mut out, c_fixed::replay_line) } else { c_fixed::run(&opts, &mut out) },
         #[cfg(feature = "c_year")]
         "year" => if replay { replay_loop(&mut out, c_year::replay_line) } else { c_year::run(&opts, &mut out) },
+        #[cfg(feature = "c_evtxr")]
+        "evtxr" => if replay { replay_loop(&mut out, c_evtxr::replay_line) } else { c_evtxr::run(&opts, &mut out) },
         #[cfg(feature = "c_lskel")]
         "lskel" => if replay { replay_loop(&mut out, c_lskel::replay_line) } else { c_lskel::run(&opts, &mut out) },
         #[cfg(feature = "c_capx")]
